@@ -365,9 +365,9 @@ theorem NormalOk.of_busy {app : App} {s : State} {a : Arch} {r : Runner}
 def ExecPost (app : App) (s : State) (a : Arch) (s2 : State) (P : Prop) : EuOut → Prop
   | .err => ∃ c, stepArch dc app a = .halt .err c
   | .ret => (∃ c, stepArch dc app a = .halt .ret c) ∧ Back s2 a ∧ s2.writeBus = s.writeBus
-  | .none => (Back s2 a ∧ NormalOk app s2 a ∧ P) ∨
+  | .none => (Back s2 a ∧ NormalOk app s2 a ∧ P ∧ s2.executed = s.executed) ∨
       (∃ a' c, stepArch dc app a = .next a' c ∧ Back s2 a' ∧ NormalOk app s2 a' ∧
-        s2.eu.processing = false ∧ s2.eu.pendingMemoryRead = false)
+        s2.eu.processing = false ∧ s2.eu.pendingMemoryRead = false ∧ s2.executed = s.executed + 1)
   | .flush pc => ∃ a' c, stepArch dc app a = .next a' c ∧ a'.pc = pc ∧ Back s2 a' ∧
       s2.eu.processing = false ∧ s2.eu.pendingMemoryRead = false ∧ s2.eu.memory = none
 
@@ -392,12 +392,141 @@ structure StutterOk (app : App) (s s2 : State) : Prop where
     (s.eu.processing = false ∧ s.eu.pendingMemoryRead = false ∧ s2.eu = s.eu ∧ s.executeBus.current = none ∧
       s2.executeBus = s.executeBus.get.2)
 
+/-! ### the count of executed instructions (for every state): it goes up exactly when `executeUnit.run` is called -/
+
+theorem bind_ok_inv' {α β} {x : M α} {f : α → M β} {r : β} (h : (x >>= f) = .ok r) : ∃ a, x = .ok a ∧ f a = .ok r := by
+  cases x with
+  | error e => simp [bind, Except.bind] at h
+  | ok a => exact ⟨a, rfl, h⟩
+
+theorem ok_pair_inj' {α β} {a a' : α} {b b' : β} (h : (Except.ok (a, b) : M (α × β)) = .ok (a', b')) : a = a' ∧ b = b' := by
+  injection h with h; simp only [Prod.mk.injEq] at h; exact h
+
+theorem euQueue_executed (s : State) (r : Runner) (e : Gen.Execution) (eu : ExecUnit) (mmu : Model.Mmu.Mmu) :
+    (euQueue s r e eu mmu).1.executed = s.executed ∧ (euQueue s r e eu mmu).1.eu.processing = eu.processing := by
+  unfold euQueue; simp only; split <;> exact ⟨trivial, rfl⟩
+
+theorem euRun_exec {app : App} {s s2 : State} {r : Runner} {b : List Byte} {out : EuOut}
+    (h : euRun app s r b = .ok (s2, out)) :
+    s2.executed = s.executed + 1 ∧ (out = .none → s2.eu.processing = false) := by
+  unfold euRun at h
+  simp only at h
+  split at h
+  · cases h
+  · obtain ⟨rfl, rfl⟩ := ok_pair_inj' h
+    exact ⟨rfl, fun hx => by cases hx⟩
+  · rename_i e _
+    split at h
+    · obtain ⟨rfl, rfl⟩ := ok_pair_inj' h
+      exact ⟨rfl, fun hx => by cases hx⟩
+    · obtain ⟨⟨inL1D, mmu1⟩, h1, h2⟩ := bind_ok_inv' h
+      simp only at h2
+      split at h2
+      · obtain ⟨mmu2, h3, h4⟩ := bind_ok_inv' h2
+        obtain ⟨rfl, rfl⟩ := ok_pair_inj' h4
+        exact ⟨rfl, fun _ => rfl⟩
+      · simp only [pure, Except.pure] at h2
+        injection h2 with h2
+        have := congrArg Prod.fst h2
+        simp only at this
+        rw [← this]
+        obtain ⟨q1, q2⟩ := euQueue_executed { s with executed := s.executed + 1 } r e
+          { s.eu with processing := false, runner := none } mmu1
+        exact ⟨q1, fun _ => q2⟩
+
+theorem euIssue_exec {app : App} {s s2 : State} {eu : ExecUnit} {r : Runner} {out : EuOut}
+    (h : euIssue app s eu r = .ok (s2, out)) :
+    (s2.executed = s.executed ∧ s2.eu.processing = eu.processing ∧ out = .none) ∨
+    (s2.executed = s.executed + 1 ∧ (out = .none → s2.eu.processing = false)) := by
+  unfold euIssue at h
+  simp only at h
+  split at h
+  · obtain ⟨rfl, rfl⟩ := ok_pair_inj' h; exact Or.inl ⟨rfl, rfl, rfl⟩
+  · split at h
+    · split at h
+      · obtain ⟨rfl, rfl⟩ := ok_pair_inj' h; exact Or.inl ⟨rfl, rfl, rfl⟩
+      · obtain ⟨⟨m, mmu1⟩, h1, h2⟩ := bind_ok_inv' h
+        simp only at h2
+        split at h2
+        · obtain ⟨rfl, rfl⟩ := ok_pair_inj' h2; exact Or.inl ⟨rfl, rfl, rfl⟩
+        · obtain ⟨rfl, rfl⟩ := ok_pair_inj' h2; exact Or.inl ⟨rfl, rfl, rfl⟩
+    · exact Or.inr (euRun_exec (s := { s with eu := eu, bu := s.bu.assert r }) h)
+
+theorem euMemDone_exec {app : App} {s s2 : State} {eu : ExecUnit} {r : Runner} {out : EuOut}
+    (h : euMemDone app s eu r = .ok (s2, out)) : s2.executed = s.executed + 1 := by
+  unfold euMemDone at h
+  split at h
+  · exact (euRun_exec (s := { s with eu := { eu with memory := none } }) h).1
+  · split at h
+    · cases h
+    · obtain ⟨line, _, h2⟩ := bind_ok_inv' h
+      obtain ⟨⟨mmu1, mem1⟩, h3, h4⟩ := bind_ok_inv' h2
+      obtain ⟨⟨m, mmu2⟩, h5, h6⟩ := bind_ok_inv' h4
+      simp only at h6
+      split at h6
+      · cases h6
+      · exact (euRun_exec h6).1
+
+theorem euStep_out_exec {app : App} {s s2 : State} {eu : ExecUnit} {out : EuOut}
+    (h : euStep app s eu = .ok (s2, out)) (hne : out ≠ .none) : s2.executed = s.executed + 1 := by
+  unfold euStep at h
+  simp only at h
+  split at h
+  · obtain ⟨_, rfl⟩ := ok_pair_inj' h; exact absurd rfl hne
+  · split at h
+    · obtain ⟨_, rfl⟩ := ok_pair_inj' h; exact absurd rfl hne
+    · split at h
+      · cases h
+      · rcases euIssue_exec h with ⟨_, _, e⟩ | ⟨e, _⟩
+        · exact absurd e hne
+        · exact e
+
+/-- an execute-unit cycle that returns `ret`, a flush or an error has called `executeUnit.run` -/
+theorem executeCycle_out_exec {app : App} {s s2 : State} {out : EuOut}
+    (h : executeCycle app s = .ok (s2, out)) (hne : out ≠ .none) : s2.executed = s.executed + 1 := by
+  unfold executeCycle at h
+  split at h
+  · simp only at h
+    split at h
+    · obtain ⟨_, rfl⟩ := ok_pair_inj' h; exact absurd rfl hne
+    · split at h
+      · cases h
+      · exact euMemDone_exec h
+  · obtain ⟨⟨s1, eu1, go⟩, h1, h2⟩ := bind_ok_inv' h
+    have hs1 : s1.executed = s.executed := by
+      unfold euTake at h1
+      by_cases hp : s.eu.processing = true
+      · simp only [hp, Bool.not_true, Bool.false_eq_true, if_false, pure, Except.pure] at h1
+        injection h1 with h1; simp only [Prod.mk.injEq] at h1; obtain ⟨rfl, _⟩ := h1; rfl
+      · have hp' : s.eu.processing = false := by simpa using hp
+        simp only [hp', Bool.not_false, if_true] at h1
+        cases hx : s.executeBus.get.1 with
+        | none =>
+          have hg : s.executeBus.get = (none, s.executeBus.get.2) := by rw [← hx]
+          rw [hg] at h1
+          simp only [pure, Except.pure] at h1
+          injection h1 with h1; simp only [Prod.mk.injEq] at h1; obtain ⟨rfl, _⟩ := h1; rfl
+        | some r =>
+          have hg : s.executeBus.get = (some r, s.executeBus.get.2) := by rw [← hx]
+          rw [hg] at h1
+          simp only at h1
+          cases hcy : Gen.InstructionType.Cycles r.instr.instructionType with
+          | error f => simp [hcy, throw, throwThe, MonadExceptOf.throw] at h1
+          | ok c =>
+            simp only [hcy, pure, Except.pure] at h1
+            injection h1 with h1; simp only [Prod.mk.injEq] at h1; obtain ⟨rfl, _⟩ := h1; rfl
+    simp only at h2
+    split at h2
+    · obtain ⟨_, rfl⟩ := ok_pair_inj' h2; exact absurd rfl hne
+    · rw [← hs1]; exact euStep_out_exec h2 hne
+
 /-- from what `executeUnit.run` guarantees to the outcome of the cycle -/
 theorem execPost_of_euPost {app : App} {s s1 s2 : State} {a : Arch} {out : EuOut} {P : Prop}
     (hrest : RestOk app s.executeBus s.decodeBus s.fu (a.pc + 4#32))
     (h1 : s1.fu = s.fu) (h2 : s1.decodeBus = s.decodeBus) (h3 : s1.executeBus = s.executeBus)
     (hpe : s1.eu.pendingMemoryRead = false) (hm : s1.eu.memory = none) (hwb : s1.writeBus = s.writeBus)
-    (hfr : Frame s1 s2) (hpost : EuPost app s1 a s2 out) : ExecPost app s a s2 P out := by
+    (hfr : Frame s1 s2) (hpost : EuPost app s1 a s2 out) (hexe : s2.executed = s.executed + 1) :
+    ExecPost app s a s2 P out := by
   cases out with
   | err => exact hpost
   | ret => exact ⟨hpost.1, hpost.2.1, by rw [hpost.2.2.2, hwb]⟩
@@ -405,7 +534,7 @@ theorem execPost_of_euPost {app : App} {s s1 s2 : State} {a : Arch} {out : EuOut
     obtain ⟨a', c, hst, hpc, hb, hproc⟩ := hpost
     right
     refine ⟨a', c, hst, hb, NormalOk.of_idle ?_ hproc (by rw [hfr.pend]; exact hpe) (by rw [hfr.mem]; exact hm),
-      hproc, by rw [hfr.pend]; exact hpe⟩
+      hproc, by rw [hfr.pend]; exact hpe, hexe⟩
     rw [hfr.fu, hfr.decodeBus, hfr.executeBus, h1, h2, h3, hpc]
     exact hrest
   | flush pc =>
@@ -432,7 +561,7 @@ theorem euStep_sim {app : App} {s : State} {a : Arch} {eu : ExecUnit} {r : Runne
     obtain ⟨rfl, rfl⟩ := h
     have h0' : eu.remainingCycles - 1 ≠ 0 := by simpa using h0
     refine ⟨rfl, rfl, rfl, rfl, rfl, rfl, Or.inl ⟨hb.with_eu_bu _ _ hsid, ?_,
-      fun hrem => ⟨rfl, rfl, rfl, hproc, Or.inl ⟨hpe, rfl, by omega⟩⟩⟩⟩
+      fun hrem => ⟨rfl, rfl, rfl, hproc, Or.inl ⟨hpe, rfl, by omega⟩⟩, rfl⟩⟩
     exact NormalOk.of_busy hrest hproc hrun hpc hi (fun hx => by simp only [hpe] at hx; cases hx) (fun _ => hm)
   · have h0' : eu.remainingCycles = 1 := by
       have : eu.remainingCycles - 1 = 0 := by simpa using h0
@@ -440,9 +569,16 @@ theorem euStep_sim {app : App} {s : State} {a : Arch} {eu : ExecUnit} {r : Runne
     simp only [h0, Bool.false_eq_true, if_false] at h
     by_cases hca : s.writeBus.canAdd = true
     · simp only [hca, Bool.not_true, Bool.false_eq_true, if_false, hrun] at h
+      have hexec := euIssue_exec h
       rcases euIssue_sim (eu := { eu with remainingCycles := eu.remainingCycles - 1, runner := some r })
         hb hsid hpe hm hpc hi hnf hca hok h with ⟨rfl, hst⟩ | ⟨hfr, hpost⟩
-      · refine ⟨hst.fu, hst.decodeBus, hst.executeBus, hst.wu, hst.mode, hst.cycles, Or.inl ⟨hst.back, ?_, ?_⟩⟩
+      · have hex0 : s2.executed = s.executed := by
+          rcases hexec with ⟨e1, _⟩ | ⟨_, e2⟩
+          · exact e1
+          · have := e2 rfl; rw [hst.processing] at this
+            have hp2 : ({ eu with remainingCycles := eu.remainingCycles - 1, runner := some r } : ExecUnit).processing = true := hproc
+            rw [hp2] at this; cases this
+        refine ⟨hst.fu, hst.decodeBus, hst.executeBus, hst.wu, hst.mode, hst.cycles, Or.inl ⟨hst.back, ?_, ?_, hex0⟩⟩
         · refine NormalOk.of_busy ?_ (by rw [hst.processing]; exact hproc) (by rw [hst.runner]) hpc hi
             hst.pend (fun hx => by rw [hst.nomem hx]; exact hm)
           rw [hst.fu, hst.decodeBus, hst.executeBus]; exact hrest
@@ -452,8 +588,22 @@ theorem euStep_sim {app : App} {s : State} {a : Arch} {eu : ExecUnit} {r : Runne
           · exact Or.inr (Or.inl ⟨m1, m2, h0', m3⟩)
           · exact Or.inr (Or.inr m)
       · refine ⟨hfr.fu, hfr.decodeBus, hfr.executeBus, hfr.wu, hfr.mode, hfr.cycles, ?_⟩
-        exact execPost_of_euPost (s1 := { s with eu := { eu with remainingCycles := eu.remainingCycles - 1, runner := some r }, bu := s.bu.assert r })
-          hrest rfl rfl rfl hpe hm rfl hfr hpost
+        cases out with
+        | none =>
+          have hex1 : s2.executed = s.executed + 1 := by
+            rcases hexec with ⟨_, e1, _⟩ | ⟨e2, _⟩
+            · obtain ⟨_, _, _, _, _, hp0⟩ := hpost
+              rw [hp0] at e1
+              have hp2 : ({ eu with remainingCycles := eu.remainingCycles - 1, runner := some r } : ExecUnit).processing = true := hproc
+              rw [hp2] at e1; cases e1
+            · exact e2
+          exact execPost_of_euPost (s1 := { s with eu := { eu with remainingCycles := eu.remainingCycles - 1, runner := some r }, bu := s.bu.assert r })
+            hrest rfl rfl rfl hpe hm rfl hfr hpost hex1
+        | flush pc =>
+          obtain ⟨a', c, hst, hpc', hb', hproc'⟩ := hpost
+          exact ⟨a', c, hst, hpc', hb', hproc', by rw [hfr.pend]; exact hpe, by rw [hfr.mem]; exact hm⟩
+        | ret => exact ⟨hpost.1, hpost.2.1, by rw [hpost.2.2.2]⟩
+        | err => exact hpost
     · have hca' : s.writeBus.canAdd = false := by simpa using hca
       simp only [hca', Bool.not_false, if_true, pure, Except.pure] at h
       injection h with h
@@ -468,7 +618,7 @@ theorem euStep_sim {app : App} {s : State} {a : Arch} {eu : ExecUnit} {r : Runne
           simp only [Bool.and_eq_true] at he
           rw [he.1] at hca'; cases hca'
       refine ⟨rfl, rfl, rfl, rfl, rfl, rfl, Or.inl ⟨hb.with_eu_bu _ _ hsid, ?_,
-        fun _ => ⟨rfl, rfl, rfl, hproc, Or.inr (Or.inl ⟨hpe, rfl, h0', hne⟩)⟩⟩⟩
+        fun _ => ⟨rfl, rfl, rfl, hproc, Or.inr (Or.inl ⟨hpe, rfl, h0', hne⟩)⟩, rfl⟩⟩
       exact NormalOk.of_busy hrest hproc hrun hpc hi (fun hx => by simp only [hpe] at hx; cases hx) (fun _ => hm)
 
 
@@ -539,7 +689,7 @@ theorem executeCycle_sim {app : App} {s : State} {a : Arch} {s2 : State} {out : 
       injection h with h
       simp only [Prod.mk.injEq] at h
       obtain ⟨rfl, rfl⟩ := h
-      refine ⟨rfl, rfl, rfl, rfl, rfl, Or.inl ⟨hb.with_eu_bu _ _ rfl, ?_, ?_⟩⟩
+      refine ⟨rfl, rfl, rfl, rfl, rfl, Or.inl ⟨hb.with_eu_bu _ _ rfl, ?_, ?_, rfl⟩⟩
       · exact NormalOk.of_busy hrest hproc hrun hpc hi
           (fun _ => ⟨hpo.wbFree, hpo.noWriter, hpo.bu, hpo.memHit, hpo.memMiss⟩)
           (fun hx => by simp at hx)
@@ -558,7 +708,7 @@ theorem executeCycle_sim {app : App} {s : State} {a : Arch} {s2 : State} {out : 
           hb rfl hpo rfl rfl rfl hpc hi hnf hok h
       refine ⟨by rw [hfr.fu, h1], by rw [hfr.decodeBus, h2], by rw [hfr.wu, h4], by rw [hfr.mode, h5],
         by rw [hfr.cycles, h6], ?_⟩
-      exact execPost_of_euPost hrest h1 h2 h3 hpe1 hm1 hwb1 hfr hpost
+      exact execPost_of_euPost hrest h1 h2 h3 hpe1 hm1 hwb1 hfr hpost (euMemDone_exec h)
   · have hp' : s.eu.pendingMemoryRead = false := by simpa using hp
     simp only [hp', Bool.false_eq_true, if_false] at h
     have hnomem := hn.nomem hp'
@@ -571,8 +721,8 @@ theorem executeCycle_sim {app : App} {s : State} {a : Arch} {s2 : State} {out : 
       refine ⟨h1, h2, h4, h5, h6, ?_⟩
       cases out with
       | none =>
-        rcases hpost with ⟨e1, e2, e3⟩ | hstep
-        · refine Or.inl ⟨e1, e2, fun hlive => stutterOk_of_euStut (e3 (hlive.1 hproc)) rfl rfl rfl (hlive.1 hproc) ?_⟩
+        rcases hpost with ⟨e1, e2, e3, e4⟩ | hstep
+        · refine Or.inl ⟨e1, e2, fun hlive => stutterOk_of_euStut (e3 (hlive.1 hproc)) rfl rfl rfl (hlive.1 hproc) ?_, e4⟩
           unfold euPhi; simp only [hp', hproc, Bool.false_eq_true, if_false, if_true]; exact Nat.le_refl _
         · exact Or.inr hstep
       | flush pc => exact hpost
@@ -589,7 +739,7 @@ theorem executeCycle_sim {app : App} {s : State} {a : Arch} {s2 : State} {out : 
         injection h with h
         simp only [Prod.mk.injEq] at h
         obtain ⟨rfl, rfl⟩ := h
-        refine ⟨rfl, rfl, rfl, rfl, rfl, Or.inl ⟨hb, ?_, ?_⟩⟩
+        refine ⟨rfl, rfl, rfl, rfl, rfl, Or.inl ⟨hb, ?_, ?_, rfl⟩⟩
         · refine NormalOk.of_idle ⟨?_, hrest.complete, ?_⟩ hproc' hp' hnomem
           · show Consec a.pc (s.executeBus.get.2.inside.map (·.pc) ++ _)
             rw [bus_inside_of_get_none _ hx]; exact hrest.consec
@@ -623,8 +773,8 @@ theorem executeCycle_sim {app : App} {s : State} {a : Arch} {s2 : State} {out : 
           refine ⟨h1, h2, h4, h5, h6, ?_⟩
           cases out with
           | none =>
-            rcases hpost with ⟨e1, e2, e3⟩ | hstep
-            · refine Or.inl ⟨e1, e2, fun _ => stutterOk_of_euStut (s := s) (e3 hc1) rfl rfl rfl hc1 ?_⟩
+            rcases hpost with ⟨e1, e2, e3, e4⟩ | hstep
+            · refine Or.inl ⟨e1, e2, fun _ => stutterOk_of_euStut (s := s) (e3 hc1) rfl rfl rfl hc1 ?_, e4⟩
               have : euPhi app s = 500 + frontW app s.executeBus s.decodeBus s.fu := by
                 unfold euPhi; simp only [hp', hproc', Bool.false_eq_true, if_false]
               rw [this]
